@@ -908,6 +908,11 @@ func c09Attribute(p c09Plan, kind string) string {
 		return c09FindingOf["RepeatSizeOverflow"]
 	case (j.Skel == "nest" || j.Skel == "nestmid") && used["NestingUnguarded"] && j.GenN >= 100000:
 		return c09FindingOf["NestingUnguarded"]
+	case j.Skel == "libgrow" && (strings.HasPrefix(j.Fn, "sharing-") || strings.HasSuffix(j.Fn, "-shared")) &&
+		(kind == "hang" || kind == "late" || kind == "died" || kind == "rss"):
+		// a value with shared elements walked as a tree by a host-level operation (one finding, whatever the operation and
+		// whether the walk ends late, never, or in the memory limit: the timing decides which)
+		return "shared-value-walk-unguarded"
 	case (j.Skel == "recurse" || j.Skel == "mutual" || j.Skel == "closures") && used["StackUnbudgeted"] &&
 		c09EffDepth(j.MaxDepth)*c09StackPerLevel(j.Src) > j.MemLimit && (kind == "late" || kind == "rss"):
 		return c09FindingOf["StackUnbudgeted"]
